@@ -488,6 +488,15 @@ def eval_call(ex, node, st, want):
                 if a.ty == T.TREE:
                     ex.safety(st, T.is_TNode(a.t), 'dict()-of-non-dict')
                 if node.keywords:
+                    # dict(d, **{key: value}): a NEW dict, d with one entry replaced / added
+                    kws = node.keywords
+                    if a.ty == T.TREE and len(kws) == 1 and kws[0].arg is None and isinstance(kws[0].value, ast.Dict) \
+                            and len(kws[0].value.keys) == 1 and kws[0].value.keys[0] is not None:
+                        k = ex.ev(kws[0].value.keys[0], st, T.ATOM)
+                        v = coerce(ex.ev(kws[0].value.values[0], st, T.TREE), T.TREE)
+                        if k.ty != T.ATOM or v is None:
+                            raise OutOfSubset('dict(x, **{k: v}) with key %s' % k.ty)
+                        return SV(T.TREE, tree_set(a.t, k.t, v.t))
                     raise OutOfSubset('dict(x, **kw)')
                 return a
             if isinstance(a.ty, T.Seq) and isinstance(a.ty.elem, T.Tup) and len(a.ty.elem.items) == 2 and not node.keywords:
